@@ -387,6 +387,20 @@ def r08_4(ck: Check) -> None:
             ck.ok("R08.4", construct, "", ys[0].loc)
     else:
         ck.violated("R08.4", construct, "%d yields" % len(ys), rs.fi.loc)
+    # ... and is put together from all three row sources: the collectors created from the locator rows are filled with the input rows and
+    # the output rows before the first block is handed out
+    if len(ys) == 1:
+        tb = [e for e in rs.events if e.kind == "call" and STORE + "load_transaction_builders" in e.targets and not e.chain]
+        for name in ("load_inputs", "load_outputs"):
+            construct = "read_blocks_from_disk fills the transaction collectors through %s before it yields" % name
+            calls = [e for e in rs.events if e.kind == "call" and STORE + name in e.targets and not e.chain]
+            okc = [e for e in calls if not residual(e, ()) and not e.loops and e.seq < ys[0].seq and len(tb) == 1 and e.term[2] == (tb[0].term,)]
+            if okc:
+                ck.ok("R08.4", construct, "", okc[0].loc)
+            else:
+                ck.violated("R08.4", construct, "%s — every stored transaction then comes back without its %s (another content under the stored id)" % (
+                    "no call" if not calls else "the call is conditional, late or made on other collectors: %s" % calls[0].describe()[:120],
+                    name.split("_")[1]), rs.fi.loc)
     q = "skepticoin.scripts.utils.read_chain_from_disk"
     s = ck.summ(q, 0)
     it = ("call", ("a", ("a", ("g", BS + "DefaultBlockStore"), "instance"), "read_blocks_from_disk"), (), ())
